@@ -196,6 +196,48 @@ pub fn run(run: &mut Run) {
         }
     }
 
+    // ---- a value compared with / looked up in a collection holding that very value (one variable
+    //      read twice): the answer is decided by equality of the contents, not by identity
+    run.sub("aliasing");
+    {
+        let nan = MV::f(f64::NAN);
+        let xs: Vec<MV> = vec![
+            MV::List(vec![nan.clone()]),
+            MV::List(vec![MV::Int(1)]),
+            MV::Map(vec![(MK::Str("a".into()), nan.clone())]),
+            MV::Map(vec![(MK::Str("a".into()), MV::Int(1))]),
+            nan.clone(),
+            MV::s("a"),
+            MV::List(vec![MV::List(vec![nan.clone()])]),
+            MV::List(vec![]),
+            MV::Bytes(vec![1]),
+            MV::Null,
+        ];
+        let xv = || E::Var("x".into());
+        for x in xs.iter() {
+            env.frames.truncate(1);
+            env.set("x", x.clone());
+            let ctx = hosts::context_for(&env, &log);
+            for (fname, e) in [
+                ("x-in-[x]", E::Bin("in", b(xv()), b(E::List(vec![xv()])))),
+                ("x-in-[1,x]", E::Bin("in", b(xv()), b(E::List(vec![E::Lit(MV::Int(1)), xv()])))),
+                ("[x].contains(x)", mcall(E::List(vec![xv()]), "contains", vec![xv()])),
+                ("[[x]].contains([x])", mcall(E::List(vec![E::List(vec![xv()])]), "contains", vec![E::List(vec![xv()])])),
+                ("x==x", E::Bin("==", b(xv()), b(xv()))),
+                ("[x]==[x]", E::Bin("==", b(E::List(vec![xv()])), b(E::List(vec![xv()])))),
+                ("{k:x}==…", E::Bin("==", b(E::Map(vec![(E::Lit(MV::s("k")), xv())])), b(E::Map(vec![(E::Lit(MV::s("k")), xv())])))),
+                ("[x].exists(y,y==x)", E::Macro("exists", b(E::List(vec![xv()])), "y".into(), vec![E::Bin("==", b(E::Var("y".into())), b(xv()))])),
+                ("[x].map(y,y in [x])", E::Macro("map", b(E::List(vec![xv()])), "y".into(), vec![E::Bin("in", b(E::Var("y".into())), b(E::List(vec![xv()])))])),
+            ] {
+                if !run.take() {
+                    continue;
+                }
+                judge(run, "aliasing", fname, &e, &mut env, &ctx, None);
+                run.nontrivial();
+            }
+        }
+    }
+
     // ---- concatenation: additive size, order, operands intact
     run.sub("concat");
     let short: Vec<MV> = lists.iter().filter(|l| l.len() <= 3).map(|l| MV::List(l.clone())).collect();
